@@ -27,7 +27,8 @@ func (b *Base85Encoder) Code() byte {
 func (b *Base85Encoder) Encode(data []byte) []byte {
 	l := ascii85.MaxEncodedLen(len(data))
 	dst := make([]byte, l)
-	ascii85.Encode(dst, data)
+	// MaxEncodedLen is an upper bound: a final group of fewer than four bytes takes fewer characters
+	dst = dst[:ascii85.Encode(dst, data)]
 	for k, b := range dst {
 		if b == '.' {
 			dst[k] = 'v'
@@ -53,7 +54,8 @@ func (b *Base85Encoder) Decode(data []byte) ([]byte, error) {
 		}
 	}
 
-	dst := make([]byte, len(source))
+	// a 'z' stands for four zero bytes, and ascii85.Decode stops as soon as fewer than four bytes of room are left
+	dst := make([]byte, 4*len(source)+4)
 	ndst, _, err := ascii85.Decode(dst, source, true)
 	if err != nil {
 		err = errors.WithStack(err)
